@@ -13,10 +13,12 @@ PROPS["C19"] = dict(
     technique="bounded symbolic execution of go/ssa (gosmt) + SMT (z3), native replay of counterexamples",
     explanation="every operation sequence up to the bound is a path decision; priorities are solver variables, each assertion is discharged for all priority values on its path",
     runs={
-        "quick": [dict(pkg="./utils", entry="VerifC19", bounds="ops=5", reach=["reversed", "end"])],
-        "thorough": [dict(pkg="./utils", entry="VerifC19", bounds="ops=7", reach=["reversed", "end"])],
+        "quick": [dict(pkg="./utils", entry="VerifC19", bounds="ops=5", reach=["reversed", "end"]),
+                  dict(pkg="./utils", entry="VerifC19", bounds="ops=6,opset=1", reach=["end"])],
+        "thorough": [dict(pkg="./utils", entry="VerifC19", bounds="ops=7", reach=["reversed", "end"]),
+                     dict(pkg="./utils", entry="VerifC19", bounds="ops=8,opset=1", reach=["end"])],
     },
-    outside="sequences longer than the bound; more than one Reverse per history; NaN priorities (Push accepts them; not in 'non-negative priorities')",
+    outside="sequences longer than the bound (5 mixed operations / 6 push-pop-only operations quick; 7 / 8 thorough, always followed by a full drain); more than one Reverse per history; NaN priorities (Push accepts them; not in 'non-negative priorities')",
     assumptions=COMMON_ASSUME + ["priorities are finite, non-negative, non-NaN (modelled as integer-valued reals in [0,2^20]; only comparisons are applied to them)"],
 )
 
@@ -30,12 +32,15 @@ PROPS["C10"] = dict(
             dict(pkg="./utils", entry="VerifC10Mod", bounds="maxn=1024", solver="cvc5-int", workers=1, timeout_ms=60000, reach=["mod-done"]),
             dict(pkg="./storage", entry="VerifC10Route", bounds="maxp=4", solver="z3-new", reach=["routed"]),
             dict(pkg="./storage", entry="VerifC10Group", bounds="maxp=4", solver="z3-new", workers=4, reach=["grouped"]),
+            dict(pkg="./storage", entry="VerifC10Big", bounds="p=300", solver="z3-new", unwind=1100, conc_limit=400, reach=["big-routed"]),
         ],
         "thorough": [
             dict(pkg="./utils", entry="VerifC10Mod", bounds="maxn=1024", solver="z3-new", workers=1, timeout_ms=120000, reach=["mod-done"]),
             dict(pkg="./utils", entry="VerifC10Mod", bounds="maxn=1024", solver="cvc5-int", workers=1, timeout_ms=120000, reach=["mod-done"]),
             dict(pkg="./storage", entry="VerifC10Route", bounds="maxp=7", solver="z3-new", timeout_ms=60000, reach=["routed"]),
             dict(pkg="./storage", entry="VerifC10Group", bounds="maxp=5", solver="z3-new", timeout_ms=60000, reach=["grouped"]),
+            dict(pkg="./storage", entry="VerifC10Big", bounds="p=300", solver="z3-new", unwind=1100, conc_limit=400, reach=["big-routed"]),
+            dict(pkg="./storage", entry="VerifC10Big", bounds="p=1024", solver="z3-new", unwind=2100, conc_limit=1100, timeout_ms=60000, reach=["big-routed"]),
         ],
     },
     outside="partition counts above 1024 (function) / above the stated maxp for the API paths (each partition count is a separate path with the id fully symbolic); n = 0 (division by zero) belongs to C12",
@@ -58,6 +63,7 @@ PROPS["C01"] = dict(
             dict(pkg="./index", entry="VerifC01", bounds="ops=4,cfg=0,maxlevel=1", reach=["searched"]),
             dict(pkg="./index", entry="VerifC01", bounds="ops=4,cfg=2,maxlevel=0", reach=["searched"]),
             dict(pkg="./index", entry="VerifC01", bounds="ops=4,cfg=1,maxlevel=0,save=1,meta=1", reach=["searched"]),
+            dict(pkg="./index", entry="VerifC01", bounds="ops=5,cfg=0,maxlevel=1,fresh=1,phase=1", reach=["searched"]),
         ],
         "thorough": [
             dict(pkg="./index", entry="VerifC01", bounds="ops=5,cfg=%d,maxlevel=1" % c, reach=["searched"]) for c in (0, 1, 2, 3, 5)
@@ -101,6 +107,7 @@ PROPS["C08"] = dict(
             dict(pkg="./index", entry="VerifC08", bounds="ops=3,reader=0,metashapes=2", reach=["loaded", "end"]),
             dict(pkg="./index", entry="VerifC08", bounds="ops=2,reader=1,header=0,target=0,metashapes=2", reach=["loaded", "end"]),
             dict(pkg="./index", entry="VerifC08", bounds="ops=2,reader=2,header=1,target=1,metashapes=3", reach=["loaded", "end"]),
+            dict(pkg="./index", entry="VerifC08", bounds="ops=5,cfg=0,maxlevel=0,metashapes=1,header=0,target=0,reader=0", reach=["loaded", "end"]),
             dict(pkg="./index", entry="VerifC08Len", bounds="", unwind=70000, reach=["len-end"]),
         ],
         "thorough": [
@@ -141,13 +148,16 @@ PROPS["C04"] = dict(
     explanation="log of up to 3 changes (all six kinds in the batch run) over 2 ids; replica B replays all bytes with independent map iteration orders; replica C has applied any prefix <= cut, restores the snapshot taken on A after entry cut (every cut 0..L), applies the rest; contents compared id by id, outcomes on A compared with the sequential reference",
     runs={
         "quick": [
-            dict(pkg="./storage", entry="VerifC04", bounds="ops=3,metashapes=2,kinds=3", reach=["end"]),
-            dict(pkg="./storage", entry="VerifC04", bounds="ops=2,metashapes=2,kinds=6,maporder=1", reach=["end"]),
+            dict(pkg="./storage", entry="VerifC04", bounds="ops=3,metashapes=1,kinds=3,ids=3,maxlevel=0", reach=["end"]),
+            dict(pkg="./storage", entry="VerifC04", bounds="ops=3,metashapes=2,kinds=3,ids=2,maxlevel=0", reach=["end"]),
+            dict(pkg="./storage", entry="VerifC04", bounds="ops=1,metashapes=2,kinds=6,maporder=1,ids=2,maxlevel=1", reach=["end"]),
+            dict(pkg="./storage", entry="VerifC04", bounds="ops=2,metashapes=2,kinds=6,maporder=0,ids=2,maxlevel=0", reach=["end"]),
         ],
         "thorough": [
-            dict(pkg="./storage", entry="VerifC04", bounds="ops=4,metashapes=2,kinds=3", reach=["end"]),
-            dict(pkg="./storage", entry="VerifC04", bounds="ops=3,metashapes=2,kinds=6,cfg=1", reach=["end"]),
-            dict(pkg="./storage", entry="VerifC04", bounds="ops=3,metashapes=3,kinds=3,ids=3,maporder=1,cfg=2", reach=["end"]),
+            dict(pkg="./storage", entry="VerifC04", bounds="ops=4,metashapes=2,kinds=3,ids=2,maxlevel=0", reach=["end"]),
+            dict(pkg="./storage", entry="VerifC04", bounds="ops=3,metashapes=2,kinds=3,ids=3,maxlevel=1", reach=["end"]),
+            dict(pkg="./storage", entry="VerifC04", bounds="ops=2,metashapes=2,kinds=6,maporder=1,ids=2,maxlevel=1", reach=["end"]),
+            dict(pkg="./storage", entry="VerifC04", bounds="ops=3,metashapes=2,kinds=6,cfg=1,ids=2,maxlevel=0", reach=["end"]),
         ],
     },
     outside="logs longer than the bound; graph shape (legitimately nondeterministic); transport of the snapshot; per-entry outcomes on followers are not observable (no notification channel exists there) - equality of contents after every log is what is compared",
